@@ -366,6 +366,8 @@ class Interp:
         k = p[0]
         if k == 'local':
             return fr.locs, p[1]
+        if k == 'tls':
+            raise Unsupported('thread-local static %s (std\'s lazy storage is not interpreted; LocalKey::with is modelled)' % p[1])
         if k == 'field':
             c, key = self.place(fr, p[1])
             obj = c[key]
